@@ -112,7 +112,7 @@ def _compact(rec, keep_plan):
     out["plan"] = rec.get("plan")
     out["text"] = rec.get("text")
     out["log"] = rec.get("log")
-    for k in ("twin_ref",):
+    for k in ("twin_ref", "twin_waived"):
         if k in rec:
             out[k] = rec[k]
     return out
